@@ -23,7 +23,8 @@ def run(ck, prog):
         "AnalysisHost methods and the include walk; (R07.3) the hand-maintained inputs are refreshed on every "
         "re-rooting: AnalysisHost::set_root_file always runs collect_sources and always ends in "
         "set_source_root; collect_sources stores a freshly built include map for every file it visits, built "
-        "from db.parse of that same file; the server follows every set_file_content with set_root_file; (R07.4) "
+        "from db.parse of that same file; AnalysisHost::set_file_content writes the text input on every path; the "
+        "server follows every set_file_content with set_root_file; (R07.4) "
         "the three constructions of IncludeId agree (SyntaxNodePtr::new of the Include node's own syntax()). "
         "Not decided: the equality over all edit histories itself, salsa's correctness, SyntaxNodePtr collisions.")
     ck.trusted = ["salsa 0.16 memoisation/invalidation", "tracing macros have no semantic effect"]
@@ -150,6 +151,17 @@ def run(ck, prog):
                         okp = all(z[0] == "call" and z[1].endswith("pop_front") for z in fo)
     ck.ob("R07.3", "includes-from-current-parse", okp, "includes are listed from db.parse(file) of the file being visited",
           msg="collect_sources lists includes from something other than the current parse of the visited file")
+    # the host hands every text on to the database: a "same text as last time" filter in the host is blind to the texts
+    # the include walk writes straight into the database (A -> B by the walk -> A again would be dropped, leaving B)
+    hb = prog.body("ide::analysis::AnalysisHost::set_file_content")
+    ck.anchor(hb is not None, "AnalysisHost::set_file_content not found")
+    ws = {i for i, t in hb.calls() if (Body.callee(t) or "").endswith("SourceDatabase>::set_file_content")}
+    skip = cfg.path_exists(hb, 0, lambda x: hb.term(x)["k"] == "return", avoid=ws, include_src=True)
+    ck.ob("R07.3", "host-writes-text", bool(ws) and skip is None,
+          "AnalysisHost::set_file_content writes the file_content input on every path",
+          msg="AnalysisHost::set_file_content can return without writing the file_content input%s: the database keeps a text "
+              "from an earlier revision (for instance one the include walk stored in between)" % (
+                  " [%s]" % hb.where(skip[-1]) if skip else ""))
     sb = prog.body("lsp::server::Server::set_file_content")
     ck.anchor(sb is not None, "Server::set_file_content not found")
     hs = {i for i, t in sb.calls() if Body.callee(t) == "ide::analysis::AnalysisHost::set_file_content"}
